@@ -15,9 +15,11 @@ Line-protocol driver for C03 (see `harness/corr/c03.go` and `extra/C03.py`).
   agg subkey <hist>                   … of bars
   parse <text>                        `parseCsv`
   exit <readErrors> <aggNil> <parseErrors> <matched>
-  tbl <delim> <ncols> <samples> <renders>
+  tbl <delim> <ncols> <samples> <renders> [<sort-cols>]
                                       the table aggregator driven through samples and the trim step of spark's render
                                       callback (a render after every sample count in <renders>), final render, CSV
+  sbv <name>                          `helpers.SortsByValue(name)` and what `helpers.BuildSorter(name)` builds (signature of the
+                                      comparator on four row pairs, `err` for a rejected name)
   cmd <name> <W,R,B,K> <flags> <n> <atleast> <ncols> <sort> <delim> <nomatch> <files>
                                       histo / table / heatmap / spark / bars end to end (`Model/C03Cmd.lean`): the tuning is
                                       ignored – the answer is the sequential reference of the concatenated files
@@ -161,8 +163,8 @@ def analyzeOp (flags : Nat) (qs : List Bytes) (nMiss : Nat) (samples : List Byte
 
 /-- `--sort-cols text` (any spelling, no modifier that reverses): the column order `sparkTrim` models -/
 def isPlainText (sort : Bytes) : Bool :=
-  match C13.parseSort C13.asciiLower sort with
-  | .ok (n, rev) => C13.lookupMode C13.asciiLower n == some .text && !rev
+  match C13.parseSort C13.lowerK sort with
+  | .ok (n, rev) => C13.lookupMode C13.lowerK n == some .text && !rev
   | .error _ => false
 
 def cmdAnswer (csvStdout : Bool) (o : CmdOut) : String :=
@@ -200,17 +202,38 @@ def cmdOp (name : String) (flags n : Nat) (atLeast : Int) (ncols : Nat) (sort de
 def natList? (s : String) : Option (List Nat) :=
   if s = "." then some [] else (s.splitOn ",").mapM nat?
 
-def tblOp (d : Bytes) (ncols : Nat) (samples : List Bytes) (renders : List Nat) : String :=
-  let t := sparkTrim ncols (sparkRun ncols d (sparkScript 0 samples renders))
-  let csv := writeCsv (tableCsvRows isortFn (akeys t.cols) (akeys t.rows) t)
-  let mm := t.computeMinMax
-  s!"ok {Hex.enc csv} {t.rows.length} {t.cols.length} {t.sum} {mm.1} {mm.2} {t.errors}"
+def tblOp (d : Bytes) (ncols : Nat) (samples : List Bytes) (renders : List Nat) (sortCols : Bytes := [116, 101, 120, 116]) : String :=
+  match builtSorter C13.lowerK sortCols with
+  | none => "fatal 2"
+  | some _ =>
+    if !sortsByValue sortCols && !isPlainText sortCols then "unmodelled sorter"
+    else
+      -- the render callback's `if !noTruncate && !helpers.SortsByValue(sortCols)`: a value-ordered sort never trims
+      let t := if sortsByValue sortCols then Table.run d samples
+               else sparkTrim ncols (sparkRun ncols d (sparkScript 0 samples renders))
+      let csv := writeCsv (tableCsvRows isortFn (akeys t.cols) (akeys t.rows) t)
+      let mm := t.computeMinMax
+      s!"ok {Hex.enc csv} {t.rows.length} {t.cols.length} {t.sum} {mm.1} {mm.2} {t.errors}"
+
+def sbvOp (name : Bytes) : String :=
+  let v := if sortsByValue name then 1 else 0
+  match builtSorter C13.lowerK name with
+  | none => s!"ok {v} err"
+  | some (byValue, rev) => s!"ok {v} {String.join ((sorterSignature byValue rev).map fun b => if b then "1" else "0")}"
 
 def handle : List String → String
   | ["cmd", name, _tune, fl, n, al, nc, srt, d, nm, files] =>
     match nat? fl, nat? n, int? al, nat? nc, Hex.dec srt, Hex.dec d, nat? nm, (files.splitOn "|").mapM decHexList with
     | some fl, some n, some al, some nc, some srt, some d, some nm, some files => cmdOp name fl n al nc srt d nm files
     | _, _, _, _, _, _, _, _ => "bad-args"
+  | ["sbv", name] =>
+    match Hex.dec name with
+    | some n => sbvOp n
+    | none => "bad-args"
+  | ["tbl", d, n, ss, rs, sc] =>
+    match Hex.dec d, nat? n, decHexList ss, natList? rs, Hex.dec sc with
+    | some d, some n, some ss, some rs, some sc => if d.isEmpty then "unmodelled empty-delimiter" else tblOp d n ss rs sc
+    | _, _, _, _, _ => "bad-args"
   | ["tbl", d, n, ss, rs] =>
     match Hex.dec d, nat? n, decHexList ss, natList? rs with
     | some d, some n, some ss, some rs => if d.isEmpty then "unmodelled empty-delimiter" else tblOp d n ss rs
